@@ -67,6 +67,8 @@ func runC13(c *core.Ctx) {
 	checkRebuildKeepsEveryEntry(c, "R13.8")
 	c.Rule("R13.14", "the stream a batch is written to is fixed with respect to recovery: between handing a batch to the reader and its next synchronisation with the recovery side the batcher reads no connection field that reconnect assigns", 1)
 	checkStreamFixedAtHandOff(c, "R13.14")
+	c.Rule("R13.16", "a byte buffer taken from an object pool is emptied before its first use: nothing of a batch whose write failed is sent again with the next batch", 1)
+	checkPooledBuffersStartEmpty(c, "R13.16")
 	c.Rule("R13.13", "every variable index into a fixed-size package-level table of the pool is kept below the table's size by a dominating comparison: the pool's goroutines run outside any recover, an index out of range there ends the process", 3)
 	checkFixedTableIndices(c, "R13.13")
 	c.Rule("R13.12", "a caller never abandons its reply channel while the pool may still send on it: the loops receiving the replies of a multi-key request run until the channel is closed (or leave on the retry marker only if recovery sends it at most once per channel)", 2)
